@@ -1,6 +1,7 @@
 /-
 Driver: one case per line in, one canonical result line out (see /verif/PROTOCOL.md).
-`driver chk` / `driver nochk` selects whether dimension checking is compiled in.
+`driver chk` / `driver nochk` selects whether dimension checking is compiled in; a further argument `nostd` selects the
+bodies compiled without the `std` feature (today: `Quantity::abs` is the manual `if v >= 0.0 { v } else { -v }`).
 -/
 import Rrtk.Drv.Q
 import Rrtk.Drv.D
@@ -13,8 +14,11 @@ import Rrtk.Drv.Dv
 import Rrtk.Drv.Rf
 open Rrtk Rrtk.Drv
 
-def runLine (chk : Bool) (line : String) : String :=
+def runLine (chk : Bool) (nostd : Bool) (line : String) : String :=
   let toks := (line.trimAscii.toString.splitOn " ").filter (· ≠ "")
+  let toks := match nostd, toks with
+    | true, "q" :: "abs" :: rest => "q" :: "absm" :: rest
+    | _, t => t
   match toks with
   | [] => ""
   | "q" :: rest => runM (runQ chk rest)
@@ -29,15 +33,15 @@ def runLine (chk : Bool) (line : String) : String :=
   | "rf" :: rest => runM (runRf chk rest)
   | _ => "NOIMPL"
 
-partial def loop (chk : Bool) (hin : IO.FS.Stream) (hout : IO.FS.Stream) : IO Unit := do
+partial def loop (chk : Bool) (nostd : Bool) (hin : IO.FS.Stream) (hout : IO.FS.Stream) : IO Unit := do
   let line ← hin.getLine
   if line.isEmpty then return ()
-  hout.putStrLn (runLine chk line)
-  loop chk hin hout
+  hout.putStrLn (runLine chk nostd line)
+  loop chk nostd hin hout
 
 def main (args : List String) : IO Unit := do
   let chk := !(args.contains "nochk")
   let hin ← IO.getStdin
   let hout ← IO.getStdout
-  loop chk hin hout
+  loop chk (args.contains "nostd") hin hout
   hout.flush
